@@ -640,6 +640,28 @@ fn gen_byz(seed: u64, prop: &str) -> Plan {
         }
         add(&mut b.plan, at, Action::User(UserOp::SetScripts { cmd: SetCmd::All, scripts }));
     }
+    if prop == "C02" && b.rng.chance(1, 2) {
+        // a stale side branch nobody follows; the user asks for its blocks / transactions, and a
+        // deviating peer may answer "as seen from" that branch
+        let (back, n) = (b.rng.range(1, 6), b.rng.range(2, 7));
+        add(&mut b.plan, b.rng.range(0, 900), Action::SideFork { src: 0, back, n });
+        for _ in 0..b.rng.range(1, 4) {
+            let at = b.rng.range(1_000, until);
+            // one of the side branch's own blocks below its tip (clamped to the branch at run time)
+            let number = (tip + n).saturating_sub(back + 1 + b.rng.range(0, n - 2));
+            let op = if b.rng.chance(2, 3) {
+                UserOp::FetchHeader(HashRef::Block { branch: 1, number })
+            } else {
+                UserOp::FetchTransaction(HashRef::Tx { branch: 1, number, k: 0 })
+            };
+            // poll a few times so that the request is (re)sent to different peers
+            let mut t = at;
+            for _ in 0..b.rng.range(1, 4) {
+                add(&mut b.plan, t, Action::User(op.clone()));
+                t += b.rng.range(2_000, 40_000);
+            }
+        }
+    }
     if prop == "C02" {
         for _ in 0..b.rng.range(1, 5) {
             let at = b.rng.range(1_000, until);
